@@ -49,7 +49,7 @@ US = pydt.timedelta(microseconds=1)
 DAY = 86400 * 10**6
 HOUR = 3600 * 10**6
 WEEKDAYS = ["monday", "tuesday", "wednesday", "thursday", "friday", "saturday", "sunday"]
-OFFSETS = [0, 0, HOUR, -5 * HOUR, 19800 * 10**6, -34200 * 10**6, 14 * HOUR, -12 * HOUR, 3661 * 10**6, -3661 * 10**6,
+OFFSETS = [0, 0, HOUR, -5 * HOUR, 9 * HOUR, 19800 * 10**6, -34200 * 10**6, 14 * HOUR, -12 * HOUR, 3661 * 10**6, -3661 * 10**6,
            2 * HOUR, -8 * HOUR, 45 * 60 * 10**6, 10 * HOUR + 1]
 UNIT_SPELL = {
     31536000 * 10**6: ["y", "year", "years"], 2628000 * 10**6: ["month", "months"],
@@ -57,6 +57,45 @@ UNIT_SPELL = {
     60 * 10**6: ["min", "mins", "minute", "minutes"], 10**6: ["s", "sec", "secs", "second", "seconds"],
     1000: ["ms", "millisecond", "milliseconds"], 1: ["us", "microsecond", "microseconds"],
 }
+
+
+class ZoneLike(pydt.tzinfo):
+    """a zone object in the style of zoneinfo / pytz / dateutil with a constant offset: it knows its offset only
+    for a date (`utcoffset(None)` is None), so `datetime.time(…, tzinfo=ZoneLike(…)).utcoffset()` is None"""
+
+    def __init__(self, off_us):
+        self.off = pydt.timedelta(microseconds=off_us)
+
+    def utcoffset(self, dt):
+        return None if dt is None else self.off
+
+    def dst(self, dt):
+        return None if dt is None else pydt.timedelta(0)
+
+    def tzname(self, dt):
+        return "ZL"
+
+    def __repr__(self):
+        return "ZoneLike(%s)" % self.off
+
+
+ZONEINFO_NAMES = {0: "UTC", 9 * 3600 * 10**6: "Asia/Tokyo", 19800 * 10**6: "Asia/Kolkata", -5 * 3600 * 10**6: "Etc/GMT+5",
+                  3600 * 10**6: "Etc/GMT-1", 14 * 3600 * 10**6: "Etc/GMT-14", -12 * 3600 * 10**6: "Etc/GMT+12",
+                  2 * 3600 * 10**6: "Etc/GMT-2", -8 * 3600 * 10**6: "Etc/GMT+8"}
+
+
+def make_tzinfo(off_us, kind):
+    """kind: 'f' datetime.timezone, 'z' ZoneLike, 'i' zoneinfo.ZoneInfo of a zone with that constant offset since 1970
+    (falls back to ZoneLike when there is no tz database or no such zone)"""
+    if kind == "i" and off_us in ZONEINFO_NAMES:
+        try:
+            import zoneinfo
+            return zoneinfo.ZoneInfo(ZONEINFO_NAMES[off_us])
+        except Exception:  # noqa – no tz database on this machine
+            return ZoneLike(off_us)
+    if kind in ("z", "i"):
+        return ZoneLike(off_us)
+    return pydt.timezone(pydt.timedelta(microseconds=off_us))
 
 
 class Hang(Exception):
@@ -186,8 +225,10 @@ def render(rng, meaning):
     if k == "daily":
         hmsu, tz = meaning[1], meaning[2]
         if tz is not None or rng.chance(40):
-            tzinfo = None if tz is None else pydt.timezone(pydt.timedelta(microseconds=tz))
-            return pydt.time(*hmsu, tzinfo=tzinfo), "T%d,%d,%d,%d,%s" % (hmsu + ("n" if tz is None else str(tz),)), "object"
+            kind = rng.choice(["f", "f", "z", "i"])
+            tzinfo = None if tz is None else make_tzinfo(tz, kind)
+            tok = "T%d,%d,%d,%d,%s" % (hmsu + ("n" if tz is None else str(tz),))
+            return pydt.time(*hmsu, tzinfo=tzinfo), tok + ("" if tz is None else "," + kind), "object"
         s = rng.choice(["", " "]) + spell_time(rng, hmsu) + rng.choice(["", " "])
         return s, "S" + enc(s), "spelling"
     if k == "weekday":
@@ -298,6 +339,31 @@ def oracle_bits(sem, c_us, rec_off, utcs):
         if key >= limit:
             out.append(True)
             limit = next_boundary(sem, key, c)
+        else:
+            out.append(False)
+    return out
+
+
+def oracle_history(sem, c_us, rec_off, ops):
+    """expected Booleans for a sink history: ops = UTC instants, None = the sink is removed and added again.
+    A file created by a rotation is created at the instant of the rotating record; after a restart the boundaries
+    are counted from the creation instant of the file then in use."""
+    g = frame_offset(sem, rec_off)
+    creation = c_us
+    limit = anchor = None
+    out = []
+    for u in ops:
+        if u is None:
+            limit = None
+            continue
+        if limit is None:
+            anchor = naive_of(creation + g)
+            limit = next_boundary(sem, anchor, anchor)
+        key = naive_of(u + g)
+        if key >= limit:
+            out.append(True)
+            limit = next_boundary(sem, key, anchor)
+            creation = u
         else:
             out.append(False)
     return out
@@ -556,7 +622,12 @@ def impl_sink(obj, ctime0_ts, pre_bytes, msgs, encoding="utf8", limit_s=5, aging
                 i = 0
                 try:
                     with time_limit(limit_s):
-                        for i, (utc, off, text) in enumerate(msgs):
+                        for i, item in enumerate(msgs):
+                            if item is None:      # logger.remove() + logger.add() of the same sink
+                                sink.stop()
+                                sink = fs.FileSink(path, rotation=obj, encoding=encoding)
+                                continue
+                            utc, off, text = item
                             clock.now_us = utc
                             sink.write(make_message(text, utc, off))
                 except Hang:
@@ -658,8 +729,9 @@ def object_of_token(token):
         elif k == "S":
             items.append(core.dec(body))
         elif k == "T":
-            h, m, s, us, tz = body.split(",")
-            tzinfo = None if tz == "n" else pydt.timezone(pydt.timedelta(microseconds=int(tz)))
+            h, m, s, us, tz = body.split(",")[:5]
+            kind = (body.split(",") + ["f"])[5]
+            tzinfo = None if tz == "n" else make_tzinfo(int(tz), kind)
             items.append(pydt.time(int(h), int(m), int(s), int(us), tzinfo=tzinfo))
     return items[0] if len(items) == 1 else items
 
@@ -713,6 +785,7 @@ def run(ctx):
         ctx.stat("rendered_as_" + how)
         if sem[0] == "daily" and sem[2] is not None:
             ctx.stat("aware_time")
+            ctx.stat("aware_time_tzinfo:" + type(obj.tzinfo).__name__)
         ctx.stat("rotations", sum(bits))
         if i < 4:
             ctx.sample({"stream": "fn", "spelling": obj if isinstance(obj, str) else repr(obj), "creation_us": eff,
@@ -992,19 +1065,28 @@ def run_sink_stream(ctx, drv, rng, boost):
         stamps = gen_stamps(rng, sem, eff, off, rng.range(2, 8))
         texts = ["<%d>%s\n" % (k, "x" * rng.below(5)) for k in range(len(stamps))]
         pre = b"old line\n" if restart else None
-        got = impl_sink(obj, ts, pre, [(u, off, t) for u, t in zip(stamps, texts)], aging=aging)
+        # the sink may be removed and added again in the middle of the history (real creation-time functions: only
+        # where the file system can persist the creation time, otherwise the clause cannot be met by design)
+        ops = list(stamps)
+        if rng.chance(45) and (aging is None or xattr_supported()):
+            for _ in range(rng.choice([1, 1, 2])):
+                ops.insert(rng.range(0, len(ops)), None)
+            ctx.stat("sink_history_with_restarts")
+        it = iter(texts)
+        got = impl_sink(obj, ts, pre, [None if u is None else (u, off, next(it)) for u in ops], aging=aging)
         if aging is not None:
             ctx.stat("sink_real_ctime:" + ("xattr" if aging["xattr_us"] is not None else "mtime") +
                      ("+chmod" if aging["touch"] else ""))
             if aging.get("expected_us") != eff:
                 raise RuntimeError("aging a scratch file did not plant the instant asked for: %r vs %d" % (aging, eff))
-        bits = oracle_bits(sem, eff, off, stamps)
+        bits = oracle_history(sem, eff, off, ops)
         exp_files = files_from_bits(bits)
-        ctx.case(("sink", token, eff, off, tuple(stamps)), nontrivial=(any(bits) and not all(bits)))
+        ctx.case(("sink", token, eff, off, tuple(ops)), nontrivial=(any(bits) and not all(bits)))
         ctx.stat("sink_level")
         ctx.stat("sink_restart_on_existing_file" if restart else "sink_fresh_file")
         rep = {"stream": "sink", "token": token, "spelling": obj if isinstance(obj, str) else repr(obj),
-               "ctime": eff, "offset": off, "stamps": stamps, "restart": restart, "expected": show_files(exp_files),
+               "ctime": eff, "offset": off, "stamps": stamps, "ops": ops, "restart": restart,
+               "expected": show_files(exp_files),
                "aging": ({k: v for k, v in aging.items() if k != "expected_us"} if aging else None)}
         if got[0] != "ok":
             ctx.violation("file sink with rotation %r: %s" % (rep["spelling"], got), dict(rep, observed=list(got)))
@@ -1026,7 +1108,9 @@ def run_sink_stream(ctx, drv, rng, boost):
                                              "user.loguru_crtime" if aging["xattr_us"] is not None else "mtime",
                                              ", chmod'ed since" if aging["touch"] else ""),
                                          off, obs, exp), dict(rep, observed=obs))
-        msgs = " ".join("%d,%d,%d,%d" % (u, off, len(t.encode()), len(t)) for u, t in zip(stamps, texts))
+        it = iter(texts)
+        msgs = " ".join("R" if u is None else (lambda t: "%d,%d,%d,%d" % (u, off, len(t.encode()), len(t)))(next(it))
+                        for u in ops)
         lines.append("sink %s %d %d %s" % (token, eff, len(pre or b""), msgs))
         expect.append((rep, obs))
     out = drv.run(lines) if lines else []
@@ -1067,7 +1151,9 @@ def replay(ctx, rep):
         obj = object_of_token(r["token"])
         texts = ["<%d>\n" % k for k in range(len(r["stamps"]))]
         pre = b"old line\n" if r.get("restart") else None
-        got = impl_sink(obj, ctime_pair(r["ctime"])[0], pre, [(u, r["offset"], t) for u, t in zip(r["stamps"], texts)],
+        it = iter(texts)
+        got = impl_sink(obj, ctime_pair(r["ctime"])[0], pre,
+                        [None if u is None else (u, r["offset"], next(it)) for u in r.get("ops", r["stamps"])],
                         aging=dict(r["aging"]) if r.get("aging") else None)
         obs = None
         if got[0] == "ok":
@@ -1075,7 +1161,8 @@ def replay(ctx, rep):
             if part is not None:
                 seen = [p[0] for p in part]
                 obs = show_files([f for j, f in enumerate(seen) if f or j == 0] or [[]])
-        print("rotation=%r stamps=%r" % (r.get("spelling"), r["stamps"]))
+        print("rotation=%r history (None = sink removed and added again)=%r aging=%r"
+              % (r.get("spelling"), r.get("ops", r["stamps"]), r.get("aging")))
         print("implementation:", obs if obs is not None else got)
         print("expected:      ", r.get("expected"))
         bad = obs != r.get("expected")
